@@ -6,18 +6,18 @@ namespace Morlock.Driver
 open Morlock Morlock.Model
 
 structure SearchCfgM where
-  ex : Explore
-  le : LeafEval
+  ex : World → Explore
+  le : LeafEval World
 
 def capturesOnly : Explore := { prio := mvvlva, pick := fun m => m.isCapture }
 def noUnderPromo : Explore := { prio := mvvlva, pick := fun m => !m.isUnderPromotion }
 
 def cfgModel (name : String) : Option SearchCfgM :=
   match name with
-  | "full-static" => some ⟨fullExploration, .static⟩
-  | "full-quiet" => some ⟨fullExploration, .quiescence capturesOnly 64⟩
-  | "nup-static" => some ⟨noUnderPromo, .static⟩
-  | "nup-quiet" => some ⟨noUnderPromo, .quiescence capturesOnly 64⟩
+  | "full-static" => some ⟨constEx fullExploration, .static⟩
+  | "full-quiet" => some ⟨constEx fullExploration, .quiescence (constEx capturesOnly) 64⟩
+  | "nup-static" => some ⟨constEx noUnderPromo, .static⟩
+  | "nup-quiet" => some ⟨constEx noUnderPromo, .quiescence (constEx capturesOnly) 64⟩
   | _ => none
 
 def specIsCapture (p : Spec.Pos) (m : Spec.SMove) : Bool := p.occ m.to   -- en passant is not a `Capture` type move
